@@ -39,6 +39,9 @@ type legCfg struct {
 	Quick    tierCfg  `json:"quick"`
 	Thorough tierCfg  `json:"thorough"`
 	Race     bool     `json:"race"`
+	// DeathIsViolation: a worker that dies abnormally (not on the time budget) while a case is in
+	// flight is a violation of the property (nodes must not die), the case in flight is the replay.
+	DeathIsViolation bool `json:"death_is_violation"`
 	Rule     string   `json:"rule"`
 	Env      []string `json:"env"`
 }
@@ -288,6 +291,10 @@ func main() {
 				fmt.Sprintf("VERIF_SHARD=%d", j.shard), fmt.Sprintf("VERIF_SHARDS=%d", j.tc.Shards), fmt.Sprintf("VERIF_CASES=%d", j.tc.Checks),
 				"VERIF_REPLAY_OUT="+filepath.Join(verifDir, "replay"), "VERIF_REPLAY=")
 			cmd.Env = append(cmd.Env, j.leg.Env...)
+			if j.leg.DeathIsViolation {
+				cmd.Env = append(cmd.Env, "VERIF_TRACK_CASE=1")
+				os.Remove(evOut + ".cur")
+			}
 			var out bytes.Buffer
 			cmd.Stdout = &out
 			cmd.Stderr = &out
@@ -295,6 +302,24 @@ func main() {
 			err := cmd.Run()
 			mu.Lock()
 			defer mu.Unlock()
+			if err != nil && j.leg.DeathIsViolation && ctx.Err() == nil && !strings.Contains(out.String(), "VIOLATION-FOUND ") && !strings.Contains(out.String(), "test timed out") && !strings.Contains(out.String(), "--- FAIL") {
+				if cur, rerr := os.ReadFile(evOut + ".cur"); rerr == nil {
+					dst := filepath.Join(verifDir, "replay", fmt.Sprintf("%s-%s-died-%x.json", id, j.leg.Name, fnv64(string(cur))))
+					os.WriteFile(dst, cur, 0o644)
+					logp := filepath.Join(shardDir, fmt.Sprintf("%s-%s-%d.log", id, j.leg.Name, j.shard))
+					os.WriteFile(logp, out.Bytes(), 0o644)
+					why := "process-dies"
+					for _, l := range strings.Split(out.String(), "\n") {
+						if strings.HasPrefix(l, "fatal error:") || strings.HasPrefix(l, "panic:") {
+							why = "process-dies:" + strings.ReplaceAll(strings.TrimSpace(l), " ", "-")
+							break
+						}
+					}
+					addViolation(violation{Sig: why, Replay: dst})
+					return
+				}
+			}
+			os.Remove(evOut + ".cur")
 			found := false
 			for _, line := range strings.Split(out.String(), "\n") {
 				if strings.HasPrefix(line, "VIOLATION-FOUND ") {
@@ -716,7 +741,11 @@ func runReplay(id string, cfg checkCfg, bin, path string) (string, []violation, 
 		}
 	}
 	if runErr != nil && len(vs) == 0 {
-		fmt.Printf("NOTE: replay of %s ended abnormally without a judged violation: %v; tail: %s\n", path, runErr, tail(out.String(), 600))
+		if leg.DeathIsViolation && ctx.Err() == nil && !strings.Contains(out.String(), "--- FAIL") {
+			vs = append(vs, violation{Sig: "process-dies", Msg: "the process died while replaying the case: " + tail(out.String(), 300), Replay: path})
+		} else {
+			fmt.Printf("NOTE: replay of %s ended abnormally without a judged violation: %v; tail: %s\n", path, runErr, tail(out.String(), 600))
+		}
 	}
 	return out.String(), vs, ks
 }
